@@ -496,7 +496,7 @@ func init() {
 	vx.Register(&vx.Prop{
 		ID:    "C19",
 		Level: "exploration",
-		Rule: "the fitgen command built from the tree is run on product-profile selections: deviation 0 = each of the 5 bundled workbooks as .xlsx with -sdk and as FitSDKRelease_X.Y.zip, each twice; deviation 1 = every single-row toggle of the example column (disable an enabled row / enable a disabled one) that an independent dependency analysis allows, quick: the messages of 21.40 that carry components or subfields, thorough: every message of all 5 workbooks; deviation 2 = dependency-closed pairs (a field with enabled subfields together with the reference field they switch on; a component source together with one of its targets). " +
+		Rule: "the fitgen command built from the tree is run on product-profile selections: deviation 0 = each of the 5 bundled workbooks as .xlsx with -sdk and as FitSDKRelease_X.Y.zip, each twice; deviation 1 = every single-row toggle of the example column (disable an enabled row / enable a disabled one) that an independent dependency analysis allows, quick: the messages of 21.40 that carry components or subfields, thorough: every message of all 5 workbooks; subfield rows of dynamic fields disabled individually and all together; deviation 2 = dependency-closed pairs (a field with enabled subfields together with the reference field they switch on; a component source together with one of its targets). " +
 			"Oracle: exit status 0, the four files byte-identical across the two runs (and across input forms), declared SDK version, audit of struct fields and lookup entries against an independent stdlib reading of the workbook (one field + one entry per enabled row with its number, base type, array flag; nothing for disabled rows), and a go/types check of the generated files together with the hand-written support code: any error located in a generated file, or any support-code error outside the stock skew set of that workbook, is a violation. distinct = distinct generated outputs",
 		Assumptions: []string{"rows with components, component targets, subfield reference fields of enabled rows and fields the hand-written code selects are not toggled (this only narrows the explored set)", "the 21.115 workbook the checked-in profile was generated from is not in the repository"},
 		Run:         runC19,
@@ -740,6 +740,52 @@ func runC19(w *vx.W) {
 				w.Fam("deviation-1/"+ver, 1)
 				if mi == 20 && fi == 1 {
 					w.Sample(map[string]interface{}{"workbook": ver, "toggle": tg})
+				}
+			}
+		}
+	}
+	// ---- subfield rows: a dynamic field keeps its main row while one / all of its subfield rows are disabled
+	// (struct fields and lookup entries must not change: subfields only produce accessors)
+	for _, ver := range versions {
+		st := stocks[ver]
+		if st == nil || st.skew == nil || (ver != "21.40" && !thorough) {
+			continue
+		}
+		for _, m := range st.msgs {
+			for _, f := range m.Fields {
+				if !f.enabled() {
+					continue
+				}
+				var on []int
+				for i := range f.Subs {
+					if f.Subs[i].enabled() {
+						on = append(on, i)
+					}
+				}
+				if len(on) == 0 {
+					continue
+				}
+				sets := [][]int{on}
+				if len(on) > 1 {
+					sets = append(sets, on[:1], on[len(on)-1:])
+				}
+				for _, set := range sets {
+					caseNo++
+					if !w.Mine(caseNo) {
+						continue
+					}
+					if w.Expired("subfield toggles") {
+						return
+					}
+					wb2, _ := xlsxlite.Open(st.data)
+					var tgs []c19Toggle
+					for _, i := range set {
+						wb2.SetNumber(wb2.Sheets[1], f.Subs[i].Row, colExample, "0")
+						tgs = append(tgs, c19Toggle{f.Subs[i].Row, "0", "disable subfield " + m.Name + "." + f.Name + "/" + f.Subs[i].Name})
+					}
+					nb, _ := wb2.Bytes()
+					checkVariant(ver, st, tgs, nb, st.msgs)
+					w.Fam("subfield-toggles/"+ver, 1)
 				}
 			}
 		}
